@@ -31,6 +31,8 @@ HOSTS = {
     "inline": [("f.js", None), ("f.c", None), ("f.css", None), ("f.rs", None), ("f.java", None)],
     "multi": [("f.js", None), ("f.java", None), ("f.rs", None), ("f.go", None), ("f.php", None)],
     "multi-star": [("f.js", None), ("f.java", None), ("f.c", None), ("f.ts", None)],
+    "multi-tail": [("f.js", None), ("f.c", None), ("f.rs", None)],
+    "multi-2star": [("f.java", None), ("f.js", None)],
     "mltag": [("f.js", None), ("f.java", None), ("f.rs", None)],
     "mltag-star": [("f.java", None), ("f.ts", None)],
     "xml": [("f.html", None), ("f.xml", None), ("f.md", None)],
@@ -81,8 +83,8 @@ class _W:
             b.raw(" ")
             b.close_comment()
             return t, "inline"
-        if layout in ("multi", "multi-star"):
-            form = BLOCK_STAR if layout == "multi-star" else BLOCK
+        if layout in ("multi", "multi-star", "multi-tail", "multi-2star"):
+            form = BLOCK_STAR if layout == "multi-star" else BLOCK_2STAR if layout == "multi-2star" else BLOCK
             before, after = r.randint(0, 3), r.randint(1, 3)
             b.raw(ind)
             b.open_comment(form)
@@ -98,6 +100,8 @@ class _W:
                 b.raw(ind + "more words")
             b.raw(" ")
             b.close_comment()
+            if layout == "multi-tail":
+                return t, "inline"      # the first content line is the tail of the comment's last line
             b.nl()
             return t, 0
         if layout in ("mltag", "mltag-star"):
@@ -175,7 +179,7 @@ class _W:
             b.tag("end", fbm.END_TAG)
             b.close_comment()
             b.nl()
-        elif layout in ("inline", "multi", "multi-star", "mltag", "mltag-star"):
+        elif layout in ("inline", "multi", "multi-star", "multi-tail", "multi-2star", "mltag", "mltag-star"):
             b.raw(ind)
             b.open_comment(BLOCK)
             b.raw(" ")
@@ -205,7 +209,7 @@ class _W:
             b.nl()
 
 
-from ..langs import Form, C_BLOCK as BLOCK, C_BLOCK_STAR as BLOCK_STAR, XML_C as XML
+from ..langs import Form, C_BLOCK as BLOCK, C_BLOCK_STAR as BLOCK_STAR, C_BLOCK_2STAR as BLOCK_2STAR, XML_C as XML
 
 MD_PAREN = Form("md-paren", "line", "[//]: # (", ")", family="md")
 MD_DQ = Form("md-dquote", "line", '[//]: # "', '"', family="md")
@@ -414,7 +418,7 @@ def run_job(job, ctx):
 
 def _lclass(layout):
     """Layout classes that matter for key positions."""
-    if layout in ("multi", "multi-star", "mltag", "mltag-star", "xml-multi"):
+    if layout in ("multi", "multi-star", "multi-2star", "mltag", "mltag-star", "xml-multi"):
         return "comment-continues-after-tag"
     return layout
 
